@@ -105,6 +105,11 @@ var Types = []FieldType{
 	{"extInner", "ext.Inner", "struct", false, true},
 	{"E1", "E1", "struct", false, false},
 	{"E2", "E2", "struct", false, false},
+	{"srchan", "[]<-chan int", "slice", true, false},
+	{"sschan", "[]chan<- int", "slice", false, false},
+	{"schanItem", "[]chan ext.Item", "slice", false, true},
+	{"sfuncItem", "[]func(ext.Item) ext.EInt", "slice", false, true},
+	{"sstructlit", "[]struct{ V ext.EInt }", "slice", false, true},
 	{"func", "func() int", "func", false, false},
 	{"chan", "chan int", "chan", false, false},
 	{"arr", "[2]int", "array", false, false},
